@@ -10,7 +10,14 @@ from sim import corpus, faults, simpool, trees
 from sim.core import Chooser, EventLog, Violation, stable_hash
 from sim.faults import FAULT_KINDS, FaultyLark, ParseSeam, text_key
 
+# valid in unusual ways: empty / blank parts (fbody: stmt* accepts them), braces inside string literals
+EDGE_OK = ["", "   ", "{ fatal(\"{\"); }", "{ fatal(\"} {\"); }"]
 BROKEN = [
+    # double faults: an early lexical error *and* an unbalanced brace
+    "{ RdV = RsV $ 1; ",
+    "{ if (a) { RdV = ; }",
+    "{ RdV = 09abc; { ",
+    "{ } }",
     "{",
     "{ RdV = ; }",
     "{ RdV = RsV }",
@@ -57,7 +64,7 @@ class EngineP(EngineBase):
         # a fixed, seed-independent pool keeps the per-worker parse cost bounded
         step = max(1, len(self.corpus_short) // 70)
         self.corpus_short = self.corpus_short[::step][:70]
-        self.short_texts = sorted({x for _, p in self.corpus_short + self.compounds for x in p} | set(corpus.MICRO) | set(BROKEN))
+        self.short_texts = sorted({x for _, p in self.corpus_short + self.compounds for x in p} | set(corpus.MICRO) | set(BROKEN) | set(EDGE_OK))
         # anything whose trees are already in the on-disk cache costs nothing in memo-parse runs
         try:
             from sim import attrmodel
@@ -110,12 +117,17 @@ class EngineP(EngineBase):
         p_compound = ch.choice([0, 1, 3], "p_compound")
         tasks, plan, names = [], {}, set()
         uid = 0
+        broken_prefix = ch.randint(10, 20, "broken-prefix") if ch.chance(1, 15, "all-broken-start") else 0
+        if broken_prefix:
+            n = max(n, broken_prefix + ch.randint(0, 6, "after-prefix"))
         for i in range(n):
             kind = ch.weighted([("micro", 6), ("corpus", 4), ("compound", p_compound), ("broken", p_broken),
                                 ("cached", 5 if mode == "memoparse" and self.corpus_cached else 0),
                                 ("fault", p_fault), ("zero", 1 if ch.chance(1, 8, "z") else 0), ("multi", 1)], "kind")
+            if i < broken_prefix:
+                kind = "broken" if ch.chance(2, 3, "prefix-kind") else "fault"
             if kind == "micro":
-                name, parts = f"m{i}", [ch.choice(corpus.MICRO, "micro")]
+                name, parts = f"m{i}", [ch.choice(corpus.MICRO + EDGE_OK, "micro")]
             elif kind == "corpus":
                 name, parts = ch.choice(self.corpus_short, "corpus")
                 parts = list(parts)
@@ -133,7 +145,7 @@ class EngineP(EngineBase):
                     # parts of any length (trees come from the cache): several *long* parts under one name
                     parts = [ch.choice(self.cached_ok_texts, "multi-long") for _ in range(ch.randint(2, 4, "nparts"))]
                 else:
-                    parts = [ch.choice(corpus.MICRO, "multi") for _ in range(ch.randint(2, 4, "nparts"))]
+                    parts = [ch.choice(corpus.MICRO + EDGE_OK, "multi") for _ in range(ch.randint(2, 4, "nparts"))]
             elif kind == "broken":
                 name = f"b{i}"
                 good = [ch.choice(corpus.MICRO, "bgood") for _ in range(ch.randint(0, 2, "bpre"))]
@@ -154,7 +166,11 @@ class EngineP(EngineBase):
             if self.special_names and ch.chance(1, 12, "specialname"):
                 # names that other resource files of the project mention (no-op list and its documented aliases)
                 name = ch.choice(self.special_names, "special")
-            r = ch.draw(10, "namegame")
+            r = ch.draw(12, "namegame")
+            if names and r in (10, 11):
+                # a name and its documented alias spelling side by side in one call
+                base = sorted(names)[ch.draw(len(names), "ng")]
+                name = ch.choice(["dep_" + base, base + "_undocumented", "IMPORTED_" + base, "undocumented_" + base], "alias-shape")
             if names and r == 0:
                 name = sorted(names)[ch.draw(len(names), "ng")].swapcase()
             elif names and r == 1:
